@@ -66,6 +66,9 @@ def hashseed_runs(prop, acc):
                 os.remove(out)
             except OSError:
                 pass
+            import shutil
+
+            shutil.rmtree(out + ".replays", ignore_errors=True)
     vals = set(digests.values())
     if len(vals) > 1 or any(d[0] != 0 for d in digests.values()):
         acc.violations.append({"sub": "hashseed/outcome_depends_on_hash_seed", "key": "quick-tier under PYTHONHASHSEED 0..3 and reversed case order", "observed": json.dumps(digests), "expected": "identical outcome digests, exit 0",
